@@ -123,14 +123,24 @@ def pad (bs : Nat) (p : Bytes) : Bytes :=
   p ++ List.replicate (bs - p.length % bs) (UInt8.ofNat (bs - p.length % bs))
 
 inductive Unpad where
-  | panic                      -- `src[length-1]` with `length = 0`: index out of range
+  | panic                      -- `src[length-1]` with `length = 0`: index out of range (pinned code only)
   | errPaddingSize
   | ok (p : Bytes)
   deriving Repr, DecidableEq
 
-/-- `pkcs5Unpadding`: reads the last byte, rejects `unpadding >= length || unpadding > blockSize`,
-keeps `src[:length-unpadding]` (the padding bytes themselves are not inspected) -/
+/-- `pkcs5Unpadding` (after fixes/C18-unpad-empty.patch): empty input is an error; reads the last byte,
+rejects `unpadding > length || unpadding > blockSize`, keeps `src[:length-unpadding]`
+(the padding bytes themselves are not inspected) -/
 def unpad (bs : Nat) (s : Bytes) : Unpad :=
+  match s.getLast? with
+  | none => .errPaddingSize
+  | some last =>
+    if last.toNat > s.length ∨ last.toNat > bs then .errPaddingSize
+    else .ok (s.take (s.length - last.toNat))
+
+/-- `pkcs5Unpadding` as pinned before the fix: `src[length-1]` panics on empty input and
+`unpadding >= length` rejects a block that consists of padding only. Kept for the witness theorems. -/
+def unpadPinned (bs : Nat) (s : Bytes) : Unpad :=
   match s.getLast? with
   | none => .panic
   | some last =>
